@@ -414,6 +414,17 @@ class CELL(Command):
         else:
             raise ParseSyntaxError(debug=shx.debug, verbose=shx.verbose)
 
+    def set(self, value: str) -> None:
+        """
+        Changes the cell in place. What was derived from the old cell parameters and is kept elsewhere
+        (the orthogonalization matrix of the Shelxfile object, the cartesian coordinates of the atoms)
+        is brought in step with the new cell.
+        """
+        super().set(value)
+        self._shx.orthogonal_matrix = self.o
+        for atom in self._shx.atoms:
+            atom.frac_coords = atom.frac_coords
+
     @property
     def volume(self) -> float:
         """
